@@ -33,13 +33,18 @@ def make_scenario(rng: Rng) -> dict:
     actors = {f"act{i}": ("default" if i == 0 else f"q{i}") for i in range(nq)}
     dcls = rng.choice(["zero", "short", "long"])
     jobs = []
+    # result stores that work, fail always, or fail now and then: an execution whose result could not be stored is an
+    # execution all the same (the processing task ends with the store's exception)
+    store_mode = rng.choice(["none", "none", "ok", "fail_all", "fail_some"])
     for i in range(M + extra):
         a = rng.randrange(nq)
         d = {"zero": 0, "short": 300, "long": rng.choice([200_000, 2 * S])}[dcls]
         jobs.append({"id": f"m{i}", "name": f"act{a}", "queue": actors[f"act{a}"], "retries": rng.choice([0, 2]), "timeout": 10 * S,
-                     "plan": [{"k": "ret", "dur": d}], "store_result": False})
+                     "plan": [{"k": "ret", "dur": d}], "store_result": store_mode != "none" and rng.random() < 0.7})
     return {"jobs": jobs, "actors": actors, "tasks_limit": limit, "M": M, "converter": "basic", "policy": {"kind": "const", "us": 0},
-            "dcls": dcls, "consumer_latency_us": rng.choice([0, 0, 0, 5_000]), "horizon_s": 60.0}
+            "dcls": dcls, "consumer_latency_us": rng.choice([0, 0, 0, 5_000]), "horizon_s": 60.0, "store_mode": store_mode,
+            "store_fail_all": store_mode == "fail_all",
+            "store_fail_calls": [k for k in range(M + extra) if rng.random() < 0.5] if store_mode == "fail_some" else []}
 
 
 async def scenario(sc: dict) -> WorkerRun:
@@ -69,11 +74,12 @@ def check(run: WorkerRun, model: Model, res: Result, label: str) -> None:
     finished = [e["id"] for e in run.events if e["kind"] == "actor_end"]
     returned = any(e["kind"] == "run_return" for e in run.events)
     case = {"label": label, "M": M, "backlog": len(sc["jobs"]), "tasks_limit": L, "queues": len(sc["actors"]),
-            "duration_class": sc["dcls"], "consumer_latency_us": sc["consumer_latency_us"],
+            "duration_class": sc["dcls"], "consumer_latency_us": sc["consumer_latency_us"], "result_store": sc.get("store_mode", "none"),
             "jobs": [{"id": j["id"], "name": j["name"], "dur": j["plan"][0]["dur"]} for j in sc["jobs"]]}
     res.dist[f"M{M}:L{L}:q{len(sc['actors'])}:{sc['dcls']}"] += 1
+    res.dist["result-store:" + sc.get("store_mode", "none")] += 1
     res.dist["started-M=%d" % (len(started) - M)] += 1
-    res.note((M, min(len(sc["jobs"]) - M, 6), sc["dcls"], L, len(sc["actors"]), sc["consumer_latency_us"]),
+    res.note((M, min(len(sc["jobs"]) - M, 6), sc["dcls"], L, len(sc["actors"]), sc["consumer_latency_us"], sc.get("store_mode", "none")),
              sample={k: v for k, v in case.items() if k != "jobs"} | {"started": len(started)} if len(res.samples) < 4 else None)
     accepted = ans == "ok"
     if not accepted:
